@@ -124,8 +124,47 @@ def dual_choi_records(src=None):
     return out
 
 
+def _bilinear(out, which, groups):
+    """append the E1-array/bilinear obligations (all-dimension proofs of the channel operations), their lemmas and planted mutants"""
+    from props import C04_bilinear as B
+    from vt import extract
+
+    recs = B.records(groups) + B.lemmas(which)
+    cache = {}
+    for x in recs:
+        if x["status"] != "discharged" and x["function"] in B.REL:
+            if x["function"] not in cache:
+                cache[x["function"]] = B.replay_cases(x["function"])
+            x["replay"] = cache[x["function"]]
+    out["records"] = out["records"] + recs
+    out["instances"] += len({x["instance"] for x in recs})
+    have = {(f["file"], f.get("function")) for f in out["functions"]}
+    for g in groups + (["channel_dim", "max_entangled"] if which == "C04" else []):
+        info = extract.Source(B.REL[g]).info(g)
+        if (info["file"], info.get("function")) not in have:
+            out["functions"].append(info)
+    pl = B.planted(which)
+    P = out["planted"]
+    P["tried"] += pl["tried"]
+    P["refuted"] += pl["refuted"]
+    P["survivors"] += pl["survivors"]
+    P["anchors_missing"] += pl["anchors_missing"]
+    P["detail"] += pl["detail"]
+    per = {}
+    for x in recs:
+        if x.get("claim"):
+            per[x["function"]] = per.get(x["function"], 0) + 1
+    out["selfchecks"]["planted_bugs_all_refuted"] = {"ok": P["tried"] == P["refuted"], "detail": P}
+    out["selfchecks"]["bilinear_nonzero_claim_obligations"] = {"ok": all(per.get(g, 0) > 0 for g in groups) and per.get("(lemma over contracts)", 0) > 0, "detail": per}
+    from vt.pyvc import bilinear as BL
+
+    cc = BL.crosscheck(40, 0)
+    out["selfchecks"]["bilinear_numpy_crosscheck"] = {"ok": cc["ok"], "detail": cc}
+    return out
+
+
 def prove(tier, seed):
-    return _prove("C04", TARGETS_C04)
+    return _bilinear(_prove("C04", TARGETS_C04), "C04", ["apply_channel", "partial_channel", "kraus_to_choi", "natural_representation"])
 
 
 def prove_c05(tier, seed):
@@ -147,4 +186,4 @@ def prove_c05(tier, seed):
         else:
             out["planted"]["survivors"].append("dual_channel: " + old)
     out["selfchecks"]["planted_bugs_all_refuted"] = {"ok": out["planted"]["tried"] == out["planted"]["refuted"], "detail": out["planted"]}
-    return out
+    return _bilinear(out, "C05", ["dual_channel", "complementary_channel"])
